@@ -199,6 +199,13 @@ package m
 //@   option clausesonly
 //@   requires a != nil && b != nil
 //@   ensures buckets-are-kept-apart [C11]: (a.RoutingPrefix.Addr() != b.RoutingPrefix.Addr() || a.RoutingPrefix.Bits() != b.RoutingPrefix.Bits()) ==> result != 0
+// The expiry sweep of the cleanup removes only expired routes and never a direct-peer route (those disappear only
+// through a removal that names the peer).
+//@ func RoutingTable.Clean$Clean$1
+//@   requires rte != nil
+//@   ensures peer-routes-do-not-expire [C11]: result ==> rte.Source != RouteSourcePeer
+//@   ensures only-expired-routes [C11]: result ==> rte.Expires.Before(now)
+
 //@ func RoutingTable.Clean$Clean$2
 //@   option clausesonly
 //@   requires rte != nil
